@@ -1019,4 +1019,78 @@ theorem reconcileTarget_sameButAfter (s s' : KState) (t : String) (h : s.reconci
         · cases h; exact SameButAfter.refl s
   · cases h; exact SameButAfter.refl s
 
+/-! ## `_update_meta_*` only touches cached columns (C04) -/
+
+/-- The columns the dispatch decision may not change: identity, step state, attachment. -/
+def Node.dcore (n : Node) : Key × StepState × Bool := (n.key, n.sstate, n.detached)
+
+theorem dcore_modifyWhere (s : KState) (p : Node → Bool) (f : Node → Node) (hf : ∀ n, (f n).dcore = n.dcore) :
+    (s.modifyWhere p f).nodes.map Node.dcore = s.nodes.map Node.dcore :=
+  map_view_modifyWhere s p f Node.dcore hf
+
+theorem updateMetaSafe_dcore (s s' : KState) (h : s.updateMetaSafe = .ok s') :
+    s'.nodes.map Node.dcore = s.nodes.map Node.dcore := by
+  unfold KState.updateMetaSafe at h
+  simp only [bind, Except.bind] at h
+  split at h
+  · simp only [pure, Except.pure, Except.ok.injEq] at h; subst h; rfl
+  · split at h
+    · cases h
+    · simp only [pure, Except.pure, Except.ok.injEq] at h
+      subst h
+      refine (dcore_modifyWhere _ _ _ ?_).trans (dcore_modifyWhere _ _ _ ?_)
+      · intro n; rfl
+      · intro n
+        split <;> rfl
+
+theorem afterLoop_dcore (cfg : KConfig) (fuel : Nat) (s s' : KState) (work : List Key) (first : Bool)
+    (h : KState.afterLoop cfg fuel s work first = some s') : s'.nodes.map Node.dcore = s.nodes.map Node.dcore := by
+  induction fuel generalizing s work first with
+  | zero =>
+    unfold KState.afterLoop at h
+    split at h
+    · simp only [Option.some.injEq] at h; subst h; rfl
+    · cases h
+  | succ fuel ih =>
+    unfold KState.afterLoop at h
+    split at h
+    · simp only [Option.some.injEq] at h; subst h; rfl
+    · refine (ih _ _ _ h).trans ?_
+      unfold KState.applyAfterUpdates
+      apply dcore_modifyWhere
+      intro n
+      split <;> rfl
+
+theorem updateMetaAfter_dcore (s s' : KState) (cfg : KConfig) (h : s.updateMetaAfter cfg = .ok s') :
+    s'.nodes.map Node.dcore = s.nodes.map Node.dcore := by
+  unfold KState.updateMetaAfter at h
+  split at h
+  · simp only [pure, Except.pure, Except.ok.injEq] at h; subst h; rfl
+  · dsimp only at h
+    split at h
+    · rename_i st hst
+      simp only [pure, Except.pure, Except.ok.injEq] at h
+      subst h
+      refine (dcore_modifyWhere _ _ _ ?_).trans (afterLoop_dcore cfg _ s st _ _ hst)
+      intro n; rfl
+    · cases h
+
+/-- `_update_meta_*` change cached columns only: every row keeps its key, state and attachment. -/
+theorem updateMeta_dcore (s s' : KState) (cfg : KConfig) (h : s.updateMeta cfg = .ok s') :
+    s'.nodes.map Node.dcore = s.nodes.map Node.dcore := by
+  unfold KState.updateMeta at h
+  simp only [bind, Except.bind] at h
+  cases h1 : s.updateMetaSafe with
+  | error e => simp [h1] at h
+  | ok s1 =>
+    simp only [h1] at h
+    cases h2 : s1.updateMetaAfter cfg with
+    | error e => simp [h2] at h
+    | ok s2 =>
+      simp only [h2, pure, Except.pure, Except.ok.injEq] at h
+      subst h
+      unfold KState.updateMetaReady
+      refine (dcore_modifyWhere _ _ _ ?_).trans ((updateMetaAfter_dcore s1 s2 cfg h2).trans (updateMetaSafe_dcore s s1 h1))
+      intro n; rfl
+
 end StepupModel.K
